@@ -13,7 +13,7 @@ import ast
 
 from ..cfg import known_falsy, known_truthy
 from ..model import self_attr, unparse, walk_body_shallow
-from .util import stored_forms, deferred_origins, call_name, call_recv, calls_in, need, node_assign_value, node_writes_attr, norm, registrations, where
+from .util import reachable_funcs, stored_forms, deferred_origins, call_name, call_recv, calls_in, need, node_assign_value, node_writes_attr, norm, registrations, where
 
 TECHNIQUE = "loss/resend typestate on (proto, connector, sent, cancelled) via guard facts and who-may-call/write"
 EXPLANATION = (
@@ -110,6 +110,39 @@ def run(ctx):
     r.check(cs.dominates([setn[0].id], wr[0].id), "%s#sent-before-write" % sr.qname,
             "`sent` is not set before the frame is handed to the transport", where(sr, wr[0].stmt),
             "connection lost during the write: entry looks unsent=never-written or cancel drops a written request")
+
+    # re-entrancy: a loop over a *snapshot* of the request table whose body can fire a request Deferred (user callbacks run
+    # synchronously and may cancel or close) has to re-validate each element against the live table before acting on it
+    bci = prog.cls(BC)
+    for g in sorted([x for x in prog.funcs.values() if x.cls is bci and x.parent is None], key=lambda x: x.qname):
+        for lp in [x for x in walk_body_shallow(g.body) if isinstance(x, ast.For)]:
+            it_ = lp.iter
+            snap = isinstance(it_, ast.Call) and call_name(it_) in ("list", "tuple", "sorted") and it_.args and "self.requests" in norm(it_.args[0])
+            if not snap or not isinstance(lp.target, ast.Name):
+                continue
+            # can the body fire a request Deferred (directly or through a method of this class)?
+            fires_ = False
+            for c in [x for st in lp.body for x in ast.walk(st) if isinstance(x, ast.Call)]:
+                if call_name(c) in ("callback", "errback"):
+                    fires_ = True
+                callee = prog.resolve_call(g, c)
+                if callee is not None and callee.cls is bci:
+                    for f2 in reachable_funcs(prog, callee).values():
+                        if any(call_name(c2) in ("callback", "errback") for c2 in calls_in(f2)):
+                            fires_ = True
+            if not fires_:
+                continue
+            cg_ = ctx.cfg(g)
+            fg_ = ctx.facts(g)
+            acts = [n for n in cg_.nodes if any(prog.resolve_call(g, c) is not None and prog.resolve_call(g, c).cls is bci for c in n.calls())
+                    and n.stmt is not None and any(n.stmt is x or n.stmt in ast.walk(x) for x in lp.body)]
+            tv = lp.target.id
+            live_ok = bool(acts) and all(any(pol and (" in self.requests" in t and tv in t or "self.requests.get(" in t and tv in t) for t, pol in fg_[n.id]) for n in acts)
+            r.check(live_ok, "%s#snapshot-loop-revalidates(for %s)" % (g.qname, tv),
+                    "the loop iterates a copy of the request table and its body can fire a request Deferred, but an element is acted on "
+                    "without checking that it is still in the table", where(g, lp),
+                    "a no-reply request completes inside the loop, its callback cancels a later still-unsent request: that request is "
+                    "removed from the table and written to the wire anyway")
 
     # ---- R3 no-reply requests
     r = ctx.rule("R3", "a written request that expects no reply is removed and completed with None", 1, "B")
@@ -304,11 +337,14 @@ def run(ctx):
 
 
 MUTANTS = [
+    {"id": "queue-sender-trusts-snapshot", "file": "brokerclient.py",
+     "old": "            if tReq.sent is None and self.requests.get(tReq.correlationId) is tReq:", "new": "            if tReq.sent is None:",
+     "expect": "C10.R2", "note": "finding F17"},
     {"id": "lost-keeps-sent", "file": "brokerclient.py", "old": "            else:\n                tReq.sent = None\n", "new": "", "expect": "C10.R1"},
     {"id": "lost-keeps-cancelled", "file": "brokerclient.py",
      "old": "            if tReq.cancelled is not None:\n                del self.requests[tReq.correlationId]\n            else:\n                tReq.sent = None",
      "new": "            tReq.sent = None", "expect": "C10.R1"},
-    {"id": "resend-everything", "file": "brokerclient.py", "old": "            if tReq.sent is None:\n                self._sendRequest(tReq)",
+    {"id": "resend-everything", "file": "brokerclient.py", "old": "            if tReq.sent is None and self.requests.get(tReq.correlationId) is tReq:\n                self._sendRequest(tReq)",
      "new": "            self._sendRequest(tReq)", "expect": "C10.R2"},
     {"id": "resend-reversed", "file": "brokerclient.py", "old": "        for tReq in list(self.requests.values()):  # must copy, may del",
      "new": "        for tReq in reversed(list(self.requests.values())):  # must copy, may del", "expect": "C10.R2"},
